@@ -154,10 +154,13 @@ func (p *process) Start() {
 			p.tryRestart(v)
 		}
 	}()
+	// Lifecycle messages have no sender: do not show the one of an earlier delivery.
+	p.context.sender = nil
 	p.context.message = Initialized{}
 	applyMiddleware(recv.Receive, p.Opts.Middleware...)(p.context)
 	p.context.engine.BroadcastEvent(ActorInitializedEvent{PID: p.pid, Timestamp: time.Now()})
 
+	p.context.sender = nil
 	p.context.message = Started{}
 	applyMiddleware(recv.Receive, p.Opts.Middleware...)(p.context)
 	p.context.engine.BroadcastEvent(ActorStartedEvent{PID: p.pid, Timestamp: time.Now()})
@@ -224,6 +227,7 @@ func (p *process) tryRestart(v any) {
 // fresh one is produced by the restart.
 func (p *process) stopReceiver() {
 	defer p.recoverStopped()
+	p.context.sender = nil
 	p.context.message = Stopped{}
 	applyMiddleware(p.context.receiver.Receive, p.Opts.Middleware...)(p.context)
 }
@@ -279,6 +283,7 @@ func (p *process) cleanup(cancel context.CancelFunc) {
 
 	p.terminated = true
 	p.inbox.Stop()
+	p.context.sender = nil
 	p.context.message = Stopped{}
 	applyMiddleware(p.context.receiver.Receive, p.Opts.Middleware...)(p.context)
 }
